@@ -52,6 +52,7 @@ struct Cx {
     diverged: Option<String>,
     states: HashSet<u64>,
     states_capped: bool,
+    cap_note: Option<String>,
 }
 
 const STATE_CAP_PER_WORKER: usize = 6_000_000;
@@ -137,6 +138,12 @@ pub fn spent() -> (u32, u32) {
     CX.with(|c| c.borrow().as_ref().map(|cx| cx.spent).unwrap_or((0, 0)))
 }
 
+/// True once the execution has consumed its whole replay prefix, i.e. it is
+/// in territory that no earlier execution of this worker has been through.
+pub fn past_prefix() -> bool {
+    CX.with(|c| c.borrow().as_ref().map(|cx| cx.frames.len() >= cx.prefix.len()).unwrap_or(true))
+}
+
 /// True while the current execution records an event trace.
 pub fn tracing() -> bool {
     CX.with(|c| c.borrow().as_ref().map(|cx| cx.record).unwrap_or(false))
@@ -159,6 +166,16 @@ macro_rules! trace {
             $crate::explorer::trace_push(format!($($arg)*));
         }
     };
+}
+
+/// Records that this execution ran into a bound of the harness (e.g. the
+/// horizon of a reachability exploration); reported as a cap in the evidence.
+pub fn flag_cap(msg: &str) {
+    CX.with(|c| {
+        if let Some(cx) = c.borrow_mut().as_mut() {
+            cx.cap_note = Some(msg.to_string());
+        }
+    })
 }
 
 /// Counts one transition.
@@ -307,6 +324,7 @@ struct RunResult {
     steps: u64,
     spent: (u32, u32),
     diverged: Option<String>,
+    cap_note: Option<String>,
 }
 
 fn run_one<F: Fn() -> Outcome>(
@@ -328,6 +346,7 @@ fn run_one<F: Fn() -> Outcome>(
             diverged: None,
             states: st,
             states_capped: *states_capped,
+            cap_note: None,
         })
     });
     QUIET.with(|q| q.set(true));
@@ -347,6 +366,7 @@ fn run_one<F: Fn() -> Outcome>(
         steps: cx.steps,
         spent: cx.spent,
         diverged: cx.diverged,
+        cap_note: cx.cap_note,
     }
 }
 
@@ -512,6 +532,12 @@ fn worker<F: Fn() -> Outcome + Sync>(
             local.max_depth = local.max_depth.max(rr.frames.len());
             let total = shared.executions.fetch_add(1, Ordering::Relaxed) + 1;
             let choices: Vec<u16> = rr.frames.iter().map(|f| f.chosen).collect();
+            if let Some(n) = &rr.cap_note {
+                let mut c = capped.lock().unwrap();
+                if c.is_none() {
+                    *c = Some(n.clone());
+                }
+            }
             if let Some(d) = &rr.diverged {
                 local
                     .machinery_errors
